@@ -148,3 +148,96 @@ Definition canon_dir (kw : text) (start : Z) : text := kw ++ [32] ++ dec_of_N (Z
 Definition canon_print (legacy sg : bool) (m : N) (code : list instr) (start : Z) : text :=
   if legacy then flat_map (canon_line legacy sg m) code ++ canon_dir (s2t "END") start
   else canon_dir (s2t "ORG") start ++ flat_map (canon_line legacy sg m) code.
+
+(* ---------- the layout of loadprint as a parameter ----------
+   loadprint_gen is loadprint with every layout decision (blank runs, letter case, line ends,
+   filler lines, signed or unsigned fields, trailing remarks, final newline) taken from a
+   record instead of the style number; lay_of s is the record loadprint s uses. *)
+Record layout := mkLay {
+  ly_gap : N -> text;                      (* a non-empty run of blanks *)
+  ly_optgap : N -> text;                   (* a possibly empty run of blanks *)
+  ly_case : N -> text -> text;             (* a respelling in another letter case *)
+  ly_eolpre : N -> text;                   (* what stands in front of the line feed (a carriage return) *)
+  ly_fill : N -> option (option text);     (* between two lines: nothing / a blank line / a comment line *)
+  ly_signed : N -> bool;                   (* fields in the upper half printed with a minus sign *)
+  ly_comment : N -> option text;           (* a trailing remark *)
+  ly_final_nl : bool }.                    (* the last line has its line end *)
+
+Definition gen_field (sg : bool) (m a : N) : text :=
+  if sg && (m / 2 <? a) then 45 :: dec_of_N (m - a) else dec_of_N a.
+Definition gen_eol (L : layout) (k : N) : text := ly_eolpre L k ++ [10].
+Definition gen_fill (L : layout) (k : N) : text :=
+  match ly_fill L k with
+  | None => []
+  | Some None => gen_eol L (k + 1)
+  | Some (Some c) => c ++ gen_eol L (k + 1)
+  end.
+Definition gen_op (L : layout) (k : N) (legacy : bool) (i : instr) : text :=
+  ly_case L (k + 1) (opcode_name (i_op i))
+  ++ (if legacy then [] else [46] ++ ly_case L (k + 2) (opmode_name (i_md i))).
+
+Definition gen_line (L : layout) (k : N) (legacy : bool) (m : N) (i : instr) : text :=
+  ly_optgap L k
+  ++ ly_case L (k + 1) (opcode_name (i_op i))
+  ++ (if legacy then [] else [46] ++ ly_case L (k + 2) (opmode_name (i_md i)))
+  ++ ly_gap L (k + 3) ++ [amode_char (i_am i)] ++ ly_gap L (k + 4) ++ gen_field (ly_signed L (k + 5)) m (i_a i)
+  ++ ly_optgap L (k + 6) ++ [44] ++ ly_gap L (k + 7) ++ [amode_char (i_bm i)] ++ ly_gap L (k + 8)
+  ++ gen_field (ly_signed L (k + 9)) m (i_b i)
+  ++ (match ly_comment L k with Some c => ly_gap L (k + 11) ++ c | None => [] end).
+
+Fixpoint gen_lines (L : layout) (k : N) (legacy : bool) (m : N) (code : list instr) : list text :=
+  match code with
+  | [] => []
+  | i :: t => gen_line L k legacy m i :: gen_lines L (k + 20) legacy m t
+  end.
+
+Fixpoint gen_join (L : layout) (k : N) (ls : list text) : text :=
+  match ls with
+  | [] => []
+  | [l] => l ++ (if ly_final_nl L then gen_eol L k else [])
+  | l :: t => l ++ gen_eol L k ++ gen_fill L (k + 3) ++ gen_join L (k + 7) t
+  end.
+
+Definition gen_dir (L : layout) (kw : text) (start : Z) : text :=
+  ly_optgap L 2 ++ ly_case L 3 kw ++ ly_gap L 4 ++ dec_of_N (Z.to_N start).
+
+Definition loadprint_gen (L : layout) (legacy : bool) (m : N) (code : list instr) (start : Z) : text :=
+  let body := gen_lines L 50 legacy m code in
+  let ls := if legacy then body ++ [gen_dir L (s2t "END") start] else gen_dir L (s2t "ORG") start :: body in
+  gen_fill L 5 ++ gen_join L 9 ls.
+
+Definition lay_of (s : N) : layout :=
+  mkLay (gap s) (optgap s) (recase s) (fun k => if pick s k 4 =? 0 then [13] else [])
+        (fun k => match pick s k 7 with
+                  | 0 => Some None
+                  | 1 => Some (Some (s2t "; remark"))
+                  | 2 => Some (Some (s2t ";name some warrior"))
+                  | _ => None end)
+        (fun k => pick s k 2 =? 0)
+        (fun k => match pick s (k + 10) 5 with 0 => Some (lp_comment s (k + 12)) | _ => None end)
+        (negb (pick s 6 5 =? 0)).
+
+Lemma gen_eol_eq s k : gen_eol (lay_of s) k = eol s k.
+Proof. unfold gen_eol, eol, lay_of. cbn [ly_eolpre]. destruct (pick s k 4 =? 0); reflexivity. Qed.
+Lemma gen_fill_eq s k : gen_fill (lay_of s) k = filler s k.
+Proof.
+  unfold gen_fill, filler. cbn [lay_of ly_fill]. destruct (pick s k 7) as [|[p|[p|p|]|]]; try reflexivity; rewrite gen_eol_eq; reflexivity.
+Qed.
+Lemma gen_line_eq s k legacy m i : gen_line (lay_of s) k legacy m i = lp_line s k legacy m i.
+Proof.
+  unfold gen_line, lp_line, lay_of, gen_field, field_text. cbn [ly_gap ly_optgap ly_case ly_signed ly_comment].
+  destruct (pick s (k + 10) 5); reflexivity.
+Qed.
+Lemma gen_lines_eq s legacy m code : forall k, gen_lines (lay_of s) k legacy m code = lp_lines s k legacy m code.
+Proof. induction code as [|i t IH]; intros k; [reflexivity|]. cbn [gen_lines lp_lines]. rewrite gen_line_eq, IH. reflexivity. Qed.
+Lemma gen_join_eq s ls : forall k, gen_join (lay_of s) k ls = join_lines s k ls (negb (pick s 6 5 =? 0)).
+Proof.
+  induction ls as [|l t IH]; intros k; [reflexivity|]. destruct t as [|l2 t2].
+  - cbn [gen_join join_lines lay_of ly_final_nl]. rewrite gen_eol_eq. reflexivity.
+  - change (gen_join (lay_of s) k (l :: l2 :: t2))
+      with (l ++ gen_eol (lay_of s) k ++ gen_fill (lay_of s) (k + 3) ++ gen_join (lay_of s) (k + 7) (l2 :: t2)).
+    rewrite IH, gen_eol_eq, gen_fill_eq. reflexivity.
+Qed.
+(* loadprint is loadprint_gen under the layout its style number denotes *)
+Lemma loadprint_as_gen s legacy m code start : loadprint s legacy m code start = loadprint_gen (lay_of s) legacy m code start.
+Proof. unfold loadprint, loadprint_gen. rewrite gen_join_eq, gen_lines_eq, gen_fill_eq. reflexivity. Qed.
